@@ -168,8 +168,9 @@ Appendix ==
     /\ Log(Ev("appendix", 0, 0, ""))
 
 Manip(op, c, x) ==
-    /\ depth = 0 /\ ~mustsec /\ c \in {"section", "subsection", "equation"}
-    /\ <<op, x>> \in {<<"set", 5>>, <<"add", 2>>, <<"step", 0>>}
+    /\ depth = 0 /\ ~mustsec
+    /\ \/ (c \in {"section", "subsection", "equation"} /\ <<op, x>> \in {<<"set", 5>>, <<"add", 2>>, <<"step", 0>>})
+       \/ (c = "chapter" /\ cls = "book" /\ <<op, x>> = <<"set", 9>>)     \* the next chapter is number 10: a zero inside a number
     /\ CASE op = "set" -> val' = MSet(val, c, x) /\ rval' = RSet(rval, c, x)
          [] op = "add" -> val' = MSet(val, c, val[c] + x) /\ rval' = RSet(rval, c, rval[c] + x)
          [] op = "step" -> val' = MStep(val, c) /\ rval' = RStep(rval, c)
@@ -186,7 +187,7 @@ Next == \/ \E l \in 0..3, s \in BOOLEAN : Section(l, s)
         \/ \E t \in {"own", "shared", "within"} : Theorem(t)
         \/ \E p \in {<<FALSE, FALSE>>, <<TRUE, FALSE>>, <<FALSE, TRUE>>, <<TRUE, TRUE>>} : EqnArray(p)
         \/ \E k \in {"enumerate", "itemize"} : BeginList(k)
-        \/ \E ox \in {<<"set", 5>>, <<"add", 2>>, <<"step", 0>>}, c \in {"section", "subsection", "equation"} : Manip(ox[1], c, ox[2])
+        \/ \E ox \in {<<"set", 5>>, <<"add", 2>>, <<"step", 0>>, <<"set", 9>>}, c \in {"section", "subsection", "equation", "chapter"} : Manip(ox[1], c, ox[2])
 
 Spec == Init /\ [][Next]_vars
 
